@@ -144,7 +144,9 @@ type (
 	StrLit   struct{ V string }
 	NoneLit  struct{ Ty *Type } // Ty = option type
 	NullLit  struct{}
-	ListLit  struct {
+	// AnyObjLit is the empty any-object literal `new { ? }`.
+	AnyObjLit struct{}
+	ListLit   struct {
 		Elems []Expr
 		Ty    *Type
 	}
@@ -243,6 +245,7 @@ func (BoolLit) T() *Type   { return Bool }
 func (StrLit) T() *Type    { return Str }
 func (n NoneLit) T() *Type { return n.Ty }
 func (NullLit) T() *Type   { return Null }
+func (AnyObjLit) T() *Type { return AnyOb }
 func (l ListLit) T() *Type { return l.Ty }
 func (RangeLit) T() *Type  { return Range }
 func (v Var) T() *Type     { return v.Ty }
